@@ -23,6 +23,7 @@ import (
 	"regexp"
 	"runtime"
 	"strconv"
+	"strings"
 
 	"github.com/anishathalye/porcupine"
 
@@ -33,7 +34,12 @@ import (
 
 const enumBase = 1_000_000_000 // case indices >= enumBase are enumerated schedules
 
-type enumFamily struct{ n, maxCancel, count, offset int }
+const maxWatchdogsPerWorker = 3
+
+type enumFamily struct {
+	n, maxCancel, count, offset int
+	held                        bool // the family of preempted arrivals (enumHeldSpec)
+}
 
 func enumFamilies(run *ev.Run) []enumFamily {
 	var fams []enumFamily
@@ -42,8 +48,15 @@ func enumFamilies(run *ev.Run) []enumFamily {
 	} else {
 		fams = []enumFamily{{n: 2, maxCancel: 2}, {n: 3, maxCancel: 1}}
 	}
+	fams = append(fams, enumFamily{n: 2, held: true})
 	off := 0
 	for i := range fams {
+		if fams[i].held {
+			fams[i].count = enumHeldCount()
+			fams[i].offset = off
+			off += fams[i].count
+			continue
+		}
 		fams[i].count = enumCount(fams[i].n, fams[i].maxCancel)
 		fams[i].offset = off
 		off += fams[i].count
@@ -56,6 +69,9 @@ func specOf(run *ev.Run, fams []enumFamily, idx int64) (roundSpec, bool) {
 		k := int(idx - enumBase)
 		for _, f := range fams {
 			if k >= f.offset && k < f.offset+f.count {
+				if f.held {
+					return enumHeldSpec(k - f.offset), true
+				}
 				return enumSpec(f.n, f.maxCancel, k-f.offset), true
 			}
 		}
@@ -81,7 +97,15 @@ func doCase(run *ev.Run, st *stats, fams []enumFamily, idx int64) {
 	st.Count("rounds", spec.Family)
 	if !completed {
 		st.Eval()
-		st.Inconclusive("watchdog: quiescence not reached within " + watchdog.String())
+		last := rr.Phases[len(rr.Phases)-1]
+		if last.Frozen != "" {
+			st.Inconclusive("frozen: nothing could move in a state the harness does not know")
+			st.Count("frozen_rounds", spec.Family)
+			st.SampleKind("frozen:"+spec.Family, map[string]any{"case": idx, "where": last.Frozen, "spec": spec})
+		} else {
+			st.Inconclusive("watchdog: quiescence not reached within " + watchdog.String())
+			st.Watchdogs++
+		}
 		return
 	}
 	var all []finding
@@ -178,7 +202,10 @@ func raceLog(run *ev.Run) {
 var mandatory = []string{"success:cache-hit-without-download", "success:after-refresh", "rotation:new-key-triggers-refresh-and-verifies", "reject:unknown-kid",
 	"reject:retired-key-after-refresh", "fault:cached-key-survives-failed-download", "shared-download:>=8-waiters-1-download",
 	"cancel:joiner-while-parked", "cancel:owner-while-parked", "porcupine:linearizable-history",
-	"fault:non-200-answer-with-jwks-body-is-a-failed-download"}
+	"fault:non-200-answer-with-jwks-body-is-a-failed-download",
+	"cancel:parked-owner-returns-while-its-download-is-still-held",
+	"preempt:caller-held-inside-VerifySignature-while-another-arrives",
+	"single-flight:caller-preempted-before-joining-shares-the-download-in-flight"}
 
 // caseAt maps a position of the global case list (enumerated schedules first, then random rounds) to a case index.
 func caseAt(pos, nEnum int) int64 {
@@ -200,13 +227,38 @@ func workerMain(run *ev.Run, fams []enumFamily, nEnum, nRandom int, spec string)
 	// are yield points: three cases in four run with every 2nd / 3rd / 5th point handing the processor over, which
 	// moves the switches between callers and the download goroutine to places the scheduler rarely picks by itself
 	sched.Install()
+	// A worker process that dies (a panic on a goroutine the library started cannot be recovered) takes its statistics with
+	// it: whatever it had found so far is written to a partial file after every case that changed it, together with the
+	// case about to run, so that the parent can still report the findings and name the case that killed the worker.
+	out := os.Getenv("C13_WORKER_OUT")
+	flushed := 0
+	flush := func(next int64) {
+		_ = os.WriteFile(out+".case", []byte(strconv.FormatInt(next, 10)), 0o644)
+		if len(st.Violations) == flushed {
+			return
+		}
+		flushed = len(st.Violations)
+		if b, err := json.Marshal(st); err == nil {
+			_ = os.WriteFile(out+".partial.tmp", b, 0o644)
+			_ = os.Rename(out+".partial.tmp", out+".partial")
+		}
+	}
 	for p := k; p < nEnum+nRandom; p += n {
+		idx := caseAt(p, nEnum)
+		if st.Watchdogs >= maxWatchdogsPerWorker {
+			// every expiry costs `watchdog`; a tree on which rounds keep running into it is not going to be decided by
+			// waiting for the remaining ones
+			st.Eval()
+			st.Inconclusive("skipped: this worker's rounds ran into the watchdog " + fmt.Sprint(maxWatchdogsPerWorker) + " times")
+			continue
+		}
 		j := []int{0, 2, 3, 5}[(p/n)%4]
 		sched.Jitter(j)
 		if j > 0 {
 			st.JitterCases++
 		}
-		doCase(run, st, fams, caseAt(p, nEnum))
+		flush(idx)
+		doCase(run, st, fams, idx)
 	}
 	sched.Jitter(0)
 	st.SchedPoints = sched.Points()
@@ -300,15 +352,38 @@ func main() {
 	}
 	total := newStats()
 	died := false
+	type crash struct {
+		worker int
+		caseNo int64
+		site   string
+		text   string
+	}
+	var crashes []crash
 	for k, w := range ws {
 		werr := w.cmd.Wait()
 		b, rerr := os.ReadFile(w.out)
 		var st stats
 		if werr != nil || rerr != nil || json.Unmarshal(b, &st) != nil {
-			// the worker died (a fatal runtime error in library code cannot be recovered): hand its output to the wrapper,
-			// which attributes the crash by its first non-runtime frame
-			died = true
+			// The worker died (a fatal runtime error in library code cannot be recovered). What it had found before is in its
+			// partial file. If the crash is the library's (first frame of the crashing goroutine outside the runtime is under
+			// the library's tree) it is a finding of its own, with the case that was running; otherwise the output goes to
+			// the wrapper, which reports the death of the check.
 			lg, _ := os.ReadFile(w.log)
+			if pb, err := os.ReadFile(w.out + ".partial"); err == nil {
+				var pst stats
+				if json.Unmarshal(pb, &pst) == nil {
+					total.merge(&pst)
+				}
+			}
+			caseNo := int64(-1)
+			if cb, err := os.ReadFile(w.out + ".case"); err == nil {
+				caseNo, _ = strconv.ParseInt(string(cb), 10, 64)
+			}
+			if site, text, ok := libraryCrash(string(lg)); ok {
+				crashes = append(crashes, crash{k, caseNo, site, text})
+				continue
+			}
+			died = true
 			fmt.Printf("c13: worker %d/%d died: %v\n%s\n", k, nw, werr, lg)
 			continue
 		}
@@ -317,6 +392,12 @@ func main() {
 	os.RemoveAll(dir)
 	if died {
 		os.Exit(3)
+	}
+	for _, c := range crashes {
+		spec, _ := specOf(run, fams, c.caseNo)
+		run.Count("worker_process_killed_by_library_panic", c.site)
+		run.Violation("C13:process-fatal:"+c.site, c.caseNo, "a goroutine started by the key set panicked (no caller can recover it; the process died) while this case was running",
+			map[string]any{"case": c.caseNo, "spec": spec, "crash": c.text, "note": "the cases this worker had not run yet were lost with it"})
 	}
 	total.into(run)
 	enumDesc := []map[string]int{}
@@ -338,4 +419,50 @@ func main() {
 	}
 	raceLog(run)
 	run.Finish()
+}
+
+var crashFrameRe = regexp.MustCompile(`(?m)^(\S.*)\n\t(/\S+\.go):(\d+)`)
+
+// libraryCrash reads the output of a dead worker: the first frame of the crashing goroutine that is neither the
+// runtime's nor sync / reflect / testing decides whose crash it is (the same rule as the wrapper's).
+func libraryCrash(lg string) (site, text string, ok bool) {
+	i := strings.Index(lg, "\npanic: ")
+	if k := strings.Index(lg, "\nfatal error: "); k >= 0 && (i < 0 || k < i) {
+		i = k
+	}
+	if i < 0 {
+		if strings.HasPrefix(lg, "panic: ") || strings.HasPrefix(lg, "fatal error: ") {
+			i = 0
+		} else {
+			return "", "", false
+		}
+	}
+	text = lg[i:]
+	if len(text) > 6000 {
+		text = text[:6000]
+	}
+	// the crashing goroutine is the first one printed
+	first := lg[i:]
+	if g := strings.Index(first, "\ngoroutine "); g >= 0 {
+		if e := strings.Index(first[g+1:], "\n\n"); e >= 0 {
+			first = first[:g+1+e]
+		}
+	}
+	for _, m := range crashFrameRe.FindAllStringSubmatch(first, -1) {
+		fn, file := m[1], m[2]
+		if strings.Contains(file, "/runtime/") || strings.Contains(file, "/src/sync/") || strings.Contains(file, "/src/reflect/") || strings.Contains(file, "/src/testing/") || strings.HasPrefix(fn, "panic(") {
+			continue
+		}
+		if strings.HasPrefix(file, mon.RepoPrefix) {
+			if p := strings.LastIndex(fn, "("); p > 0 {
+				fn = fn[:p]
+			}
+			if p := strings.LastIndex(fn, "/"); p >= 0 {
+				fn = fn[p+1:]
+			}
+			return fn, text, true
+		}
+		return "", text, false
+	}
+	return "", text, false
 }
